@@ -1,14 +1,22 @@
 """C11 Ergodic trimming: strong components of the thresholded graph, weight
-from the original counts, mapping orientation, in-place variant."""
+from the original counts, mapping orientation, in-place variant.
+
+The constructs are located by ROLE (the graph handed to
+connected_components, the matrix that is returned, the index vector of the
+TrimMapping pairs, the stores that run on the renumbering / on the in-place
+path of the CFG) and their contents are compared after expansion of
+temporaries against lists of accepted forms (match.classify): a recognised
+construct with different content is a violation, an unfamiliar shape is
+analysis-incomplete."""
 import ast
 
-from ..core import (AnalysisIncomplete, call_name, const_value, kwarg,
-                    names_loaded, params, target_names, u, walk_expr,
-                    walk_local)
+from ..cfg import Assume
+from ..core import (AnalysisIncomplete, arg_or_kw, call_name, const_value,
+                    kwarg, params, u, walk_expr, walk_local)
 from ..patterns import (Cmp, assigns_to, calls_in, check_no_arg_mutation,
                         conjuncts, finfo, returns_of, subscript_stores)
 from .msm_common import TM, MS, TS
-from ..match import C, CS
+from ..match import C, CS, canon, classify, match
 
 EXPLANATION = (
     'Static decision of the structural necessary conditions of ergodic '
@@ -24,173 +32,751 @@ EXPLANATION = (
     'restored; (D5) the caller\'s matrix is not modified. That scipy returns '
     'the strongly connected components is trusted.')
 
+F = 'trim_disconnected'
+
+
+# ---------------------------------------------------------------------------
+# helpers (candidates for a shared module)
+
+def _cx(e):
+    """Canonical text of an (expanded) expression."""
+    return u(canon(e))
+
+
+def _short(e, n=160):
+    t = e if isinstance(e, str) else u(e)
+    return t if len(t) <= n else t[:n - 3] + '...'
+
+
+def _strip_calls(e, names=('np.asarray', 'np.array', 'np.asanyarray', 'list', 'int')):
+    """Peel value-preserving wrappers `f(x)` (single positional argument)."""
+    while isinstance(e, ast.Call) and call_name(e) in names and len(e.args) == 1 and not e.keywords:
+        e = e.args[0]
+    return e
+
+
+def _is_full_slice(e):
+    return isinstance(e, ast.Slice) and e.lower is None and e.upper is None and e.step is None
+
+
+def _is_ix(e):
+    return isinstance(e, ast.Call) and (call_name(e) or '').split('.')[-1] == 'ix_'
+
+
+def _temp_on(fi, n, excl):
+    """Like FuncInfo.temp_value, but on the paths that avoid the branch headed
+    by the Assume node `excl`: a name with one definition per branch denotes,
+    on the other branch, the value of the definition made there."""
+    v = fi.temp_value(n)
+    if v is not None or excl is None:
+        return v
+    from ..normal import is_pure
+    if not isinstance(n, ast.Name) or not isinstance(n.ctx, ast.Load):
+        return None
+    try:
+        defs = fi.defs_of_use(n)
+    except Exception:
+        return None
+    if len(defs) < 2 or any(d in ('PARAM', 'UNBOUND') for d in defs):
+        return None
+    dom = fi.cfg.dominates
+    live = [d for d in defs if not dom(excl, d)]
+    if len(live) != 1:
+        return None
+    site = live[0]
+    if not isinstance(site, (ast.Assign, ast.AnnAssign)):
+        return None
+    v = fi.def_value(site, n.id)
+    if v is None or isinstance(v, ast.GeneratorExp) or not is_pure(v):
+        return None
+    if fi._mutated_in_place(n.id):
+        return None
+    use = fi.stmt(n)
+
+    def on_path(ds):
+        return {d for d in ds if d in ('PARAM', 'UNBOUND') or not dom(excl, d)}
+    for m in walk_expr(v):
+        if not (isinstance(m, ast.Name) and isinstance(m.ctx, ast.Load)):
+            continue
+        if on_path(fi.rd.defs_at(site, m.id)) != on_path(fi.rd.defs_at(use, m.id)):
+            return None
+        for ms in fi._mutated_in_place(m.id):
+            if ms is use or ms is site or dom(excl, ms):
+                continue
+            if fi.cfg.reachable(site, ms, avoiding=[use]) and fi.cfg.reachable(ms, use, avoiding=[site]):
+                return None
+    return v
+
+
+def _xb(fi, expr, excl=None, depth=8):
+    """fi.expand(expr), evaluated on the paths avoiding branch `excl`."""
+    if excl is None:
+        return fi.expand(expr, depth=depth)
+
+    def ex(e, d):
+        if isinstance(e, ast.Name):
+            if d > 0 and isinstance(e.ctx, ast.Load):
+                v = _temp_on(fi, e, excl)
+                if v is not None:
+                    return ex(v, d - 1)
+            return ast.copy_location(ast.Name(id=e.id, ctx=e.ctx), e)
+        if not isinstance(e, ast.AST):
+            return e
+        if isinstance(e, (ast.expr_context, ast.operator, ast.unaryop, ast.boolop, ast.cmpop)):
+            return e
+        new = type(e)()
+        for f in e._fields:
+            val = getattr(e, f, None)
+            if isinstance(val, list):
+                setattr(new, f, [ex(x, d) for x in val])
+            elif isinstance(val, ast.AST):
+                setattr(new, f, ex(val, d))
+            else:
+                setattr(new, f, val)
+        for a in ('lineno', 'col_offset', 'end_lineno', 'end_col_offset'):
+            if hasattr(e, a):
+                setattr(new, a, getattr(e, a))
+        return new
+    return ex(expr, depth)
+
+
+def _branch_assumes(fi, is_test):
+    """(assume_true, assume_false) of the single `if` whose test is, up to
+    negation, the atom recognised by is_test(expr); None if not exactly one."""
+    found = {}
+    for n in fi.cfg.nodes:
+        if not isinstance(n, Assume):
+            continue
+        cj = conjuncts(n.test, n.polarity)
+        if cj is None or len(cj) != 1 or not (isinstance(cj[0], tuple) and cj[0][0] == 'expr'):
+            continue
+        _, e, pol = cj[0]
+        if is_test(e):
+            found.setdefault(id(n.owner), {})[pol] = n
+    if len(found) != 1:
+        return None
+    d = next(iter(found.values()))
+    if True not in d or False not in d:
+        return None
+    return d[True], d[False]
+
+
+def _guard_atoms(fi, stmt):
+    """Atomic conditions known to hold at stmt (conjuncts of every dominating
+    branch assumption) as canonical texts with polarity; None if some
+    dominating assumption is a disjunction."""
+    out = []
+    for n in fi.cfg.nodes:
+        if isinstance(n, Assume) and fi.cfg.dominates(n, stmt):
+            cj = conjuncts(n.test, n.polarity)
+            if cj is None:
+                return None
+            for c in cj:
+                if isinstance(c, Cmp):
+                    out.append((_cx(ast.Compare(left=c.lhs, ops=[c.op()], comparators=[c.rhs])), True))
+                else:
+                    out.append((_cx(c[1]), c[2]))
+    return out
+
+
+def _dict_pairs(e):
+    """(key, value, target, iterable) of `{k: v for t in it}` or
+    `dict((k, v) for t in it)`; None otherwise."""
+    if isinstance(e, ast.DictComp) and len(e.generators) == 1 and not e.generators[0].ifs:
+        g = e.generators[0]
+        return e.key, e.value, g.target, g.iter
+    if isinstance(e, ast.Call) and call_name(e) == 'dict' and len(e.args) == 1 and not e.keywords:
+        g = e.args[0]
+        if isinstance(g, (ast.GeneratorExp, ast.ListComp)) and len(g.generators) == 1 and not g.generators[0].ifs \
+                and isinstance(g.elt, ast.Tuple) and len(g.elt.elts) == 2:
+            return g.elt.elts[0], g.elt.elts[1], g.generators[0].target, g.generators[0].iter
+    return None
+
+
+def _inverting(e):
+    """True / False: the dict expression maps b -> a for (a, b) pairs of its
+    iterable / keeps the orientation; None: not recognised."""
+    p = _dict_pairs(e)
+    if p is None:
+        return None, None
+    k, v, t, it = p
+    if not (isinstance(t, ast.Tuple) and len(t.elts) == 2):
+        return None, it
+    a, b = u(t.elts[0]), u(t.elts[1])
+    if a == b:
+        return None, it
+    if (u(k), u(v)) == (b, a):
+        return True, it
+    if (u(k), u(v)) == (a, b):
+        return False, it
+    return None, it
+
+
+# ---------------------------------------------------------------------------
 
 def check(ck):
     mod = ck.repo.mod(TM)
-    fn = mod.func('trim_disconnected')
+    fn = mod.func(F)
     ck.analysed(mod, fn)
+    trim_rules(ck, mod, fn)
+    unpack_rules(ck)
+    mapping_rules(ck)
+    fit_rules(ck)
+    mm = ck.repo.mod(MS)
+    try:
+        from .C16 import d2_pipeline
+        d2_pipeline(ck, mm)
+    except AnalysisIncomplete:
+        raise
+    except Exception as e:      # rule of another property crashed on an unfamiliar shape
+        ck.missing('C16.D2.pipeline', 'pipeline rule (sa/rules/C16.py) could not analyse MSM.fit: %r' % (e,))
+    check_no_arg_mutation(ck, 'C11.D5.inputs-unmodified', [(TM, F)])
+    return EXPLANATION
+
+
+def trim_rules(ck, mod, fn):
     fi = finfo(mod, fn)
-    counts, thr = params(fn)[0], params(fn)[1]
-    # D1
-    cc = [c for c in calls_in(fn) if (call_name(c) or '').endswith('connected_components')]
+    ps = params(fn)
+    if len(ps) < 3:
+        ck.missing('C11.D1.strong', 'signature trim_disconnected(counts, threshold, renumber_states)')
+        return
+    counts, thr, renum = ps[0], ps[1], ps[2]
+    dom = fi.cfg.dominates
+
+    # ---- D1: strongly connected components of the directed graph
+    cc = [c for c in calls_in(fn) if (call_name(c) or '').split('.')[-1] == 'connected_components']
     if len(cc) != 1:
         ck.missing('C11.D1.strong', 'connected_components call')
-        return EXPLANATION
+        return
     c = cc[0]
-    conn, direc = kwarg(c, 'connection'), kwarg(c, 'directed')
+    conn, direc = arg_or_kw(c, 2, 'connection'), arg_or_kw(c, 1, 'directed')
     ok = conn is not None and const_value(conn) == 'strong' and (direc is None or const_value(direc) is True)
-    ck.check(ok, 'C11.D1.strong', mod, c, 'trim_disconnected', u(c),
+    ck.check(ok, 'C11.D1.strong', mod, c, F, u(c),
              'strongly connected components of the directed graph',
              'connected_components must be called with directed=True, connection="strong": the default '
              '"weak" keeps states that can be entered but never left (or vice versa)')
+    cst = fi.stmt(c)
+    ok = isinstance(cst, ast.Assign) and cst.value is c and isinstance(cst.targets[0], ast.Tuple) and \
+        len(cst.targets[0].elts) == 2 and all(isinstance(e, ast.Name) for e in cst.targets[0].elts)
+    if not ok:
+        ck.missing('C11.D1.strong', '`n_components, labels = connected_components(...)`')
+        return
+    nsub, labels = (e.id for e in cst.targets[0].elts)
+
+    # ---- D2: the graph is a thresholded COPY of the counts
+    # every definition of `counts` is the parameter or its densification
+    dens = CS('%s.toarray()' % counts, '%s.todense()' % counts, 'np.asarray(%s.todense())' % counts, '%s.A' % counts)
+    redefs = [s for s in assigns_to(fn, counts)]
+    okd = all(isinstance(s, ast.Assign) and len(s.targets) == 1 and isinstance(s.targets[0], ast.Name) and
+              _cx(s.value) in dens for s in redefs)
     graph = c.args[0] if c.args else kwarg(c, 'csgraph')
-    gname = u(graph)
-    gd = [s for s in assigns_to(fn, gname) if isinstance(s, ast.Assign)]
-    okc = len(gd) == 1 and isinstance(gd[0].value, ast.Call) and (
-        (call_name(gd[0].value) == 'np.array' and u(gd[0].value.args[0]) == counts and
-         const_value(kwarg(gd[0].value, 'copy', ast.Constant(value=True))) is True) or
-        u(gd[0].value) in ('%s.copy()' % counts, 'np.copy(%s)' % counts))
-    ck.check(okc, 'C11.D2.threshold-copy', mod, gd[0] if gd else c, 'trim_disconnected', u(gd[0]) if gd else gname,
-             'thresholding works on a copy of the counts',
-             'the graph handed to connected_components must be a COPY of the counts '
-             '(np.array(counts, copy=True)); thresholding the original destroys sub-threshold counts')
-    ts = [s for s, t in subscript_stores(fn, gname)]
-    okt = len(ts) == 1 and u(ts[0].targets[0].slice) == '%s < %s' % (counts, thr) and u(ts[0].value) == '0'
-    ck.check(okt, 'C11.D2.threshold', mod, ts[0] if ts else c, 'trim_disconnected', u(ts[0]) if ts else 'threshold',
-             'counts strictly below the threshold are removed from the graph only',
-             'thresholding must zero exactly the entries with counts < threshold in the graph copy')
-    if ts and gd:
-        ck.check(fi.cfg.dominates(ts[0], fi.stmt(c)), 'C11.D2.threshold', mod, ts[0], 'trim_disconnected',
-                 'threshold before components', 'thresholding precedes the component search', 'thresholding must happen before connected_components')
-    # labels unpack
-    st = fi.stmt(c)
-    ok = isinstance(st, ast.Assign) and isinstance(st.targets[0], ast.Tuple) and len(st.targets[0].elts) == 2
-    nsub, labels = (u(e) for e in st.targets[0].elts) if ok else ('?', '?')
-    # D2 weights from original counts, row sums
-    pops = [s for s in assigns_to(fn, 'pops') if isinstance(s, ast.Assign)]
-    okp = len(pops) == 1 and u(pops[0].value) in ('%s.sum(axis=1)' % counts, 'np.sum(%s, axis=1)' % counts)
-    ck.check(okp, 'C11.D2.weights', mod, pops[0] if pops else fn, 'trim_disconnected', u(pops[0]) if pops else 'pops',
-             'state weight = row sum of the ORIGINAL counts',
-             'component weight must come from %s.sum(axis=1) of the original counts: the thresholded copy '
-             'loses sub-threshold counts and axis=0 (column sums) ranks components by arrivals, which '
-             'differs when one-way links exist' % counts)
-    if okp:
-        # counts at that point: original (possibly densified), not thresholded
-        for x in ast.walk(pops[0].value):
-            if isinstance(x, ast.Name) and x.id == counts:
-                defs = fi.defs_of_use(x)
-                ok = all(d == 'PARAM' or (isinstance(d, ast.Assign) and u(d.value) in ('%s.toarray()' % counts,))
-                         for d in defs)
-                ck.check(ok, 'C11.D2.weights', mod, pops[0], 'trim_disconnected', 'definitions of %s at pops' % counts,
-                         'weights see the caller\'s counts (only densified)', 'counts were redefined before the weights were taken')
-    sp = [s for s in assigns_to(fn, 'subgraph_pops') if isinstance(s, ast.Assign)]
-    oks = len(sp) == 1 and C('np.sum(pops[%s == i])' % labels) in u(sp[0].value) and 'range(%s)' % nsub in u(sp[0].value)
-    ck.check(oks, 'C11.D2.weights', mod, sp[0] if sp else fn, 'trim_disconnected', u(sp[0]) if sp else 'subgraph_pops',
-             'component weight = sum of member weights, one entry per component', 'per-component weight must sum pops over labels == i for i in range(n_subgraphs)')
-    best = [s for s in walk_local(fn) if isinstance(s, ast.Assign) and u(s.value) == C('np.argmax(subgraph_pops)')]
-    ck.check(len(best) == 1, 'C11.D2.heaviest', mod, best[0] if best else fn, 'trim_disconnected', u(best[0]) if best else 'argmax',
-             'heaviest component selected by argmax', 'the kept component must be np.argmax(subgraph_pops) (heaviest, not largest/first)')
-    bname = u(best[0].targets[0]) if best else '?'
-    keep = [s for s in assigns_to(fn, 'keep_states') if isinstance(s, ast.Assign)]
-    okk = len(keep) == 1 and u(keep[0].value) == 'np.where(%s == %s)[0]' % (labels, bname)
-    ck.check(okk, 'C11.D3.keep', mod, keep[0] if keep else fn, 'trim_disconnected', u(keep[0]) if keep else 'keep_states',
-             'kept states in ascending original order', 'keep_states must be np.where(labels == best)[0]')
-    # renumber branch
-    ifs = [n for n in fn.body if isinstance(n, ast.If) and u(n.test) == params(fn)[2]]
-    if len(ifs) != 1:
+    for _ in range(4):          # `g2 = g` : follow plain aliases to the array that is built and thresholded
+        if isinstance(graph, ast.Name) and len(fi.defs_of_use(graph)) == 1:
+            d = next(iter(fi.defs_of_use(graph)))
+            v = fi.def_value(d, graph.id) if d not in ('PARAM', 'UNBOUND') else None
+            if isinstance(v, ast.Name):
+                graph = v
+                continue
+        break
+    G = graph.id if isinstance(graph, ast.Name) else None
+    gstores = subscript_stores(fn, G) if G else []
+    cmask = ['%s < %s' % (counts, thr), 'np.less(%s, %s)' % (counts, thr), '~(%s <= %s)' % (thr, counts)]
+    if G and gstores:
+        gd = [d for d in fi.defs_of_use(graph)]
+        if len(gd) != 1 or not isinstance(gd[0], ast.Assign) or fi.def_value(gd[0], G) is None:
+            ck.missing('C11.D2.threshold-copy', 'single definition of the graph %s' % G)
+        else:
+            v = classify(fi.def_value(gd[0], G), ['np.array(%s, copy=True)' % counts, '%s.copy()' % counts,
+                                                  'np.array(%s, dtype=_D)' % counts, 'np.array(%s, dtype=_D, copy=True)' % counts,
+                                                  '%s.astype(_D)' % counts], scope={counts})
+            ck.decide(v, 'C11.D2.threshold-copy', mod, gd[0], F, u(gd[0]),
+                      'thresholding works on a copy of the counts',
+                      'the graph handed to connected_components must be a COPY of the counts '
+                      '(np.array(counts, copy=True)); thresholding the original destroys sub-threshold counts')
+        before = [(s, t) for s, t in gstores if fi.cfg.reachable(s, cst)]
+        if len(before) != 1 or not isinstance(before[0][0], ast.Assign):
+            ck.missing('C11.D2.threshold', 'exactly one store into the graph %s before the component search (found %d)' % (G, len(before)))
+        else:
+            ts, tt = before[0]
+            m = fi.expand(tt.slice)
+            v = classify(m, cmask + ['%s < %s' % (G, thr)], scope={counts, thr, G})
+            if v[0] == 'match' and const_value(ts.value) != 0:
+                v = ('near', 1, '%s[%s < %s] = 0' % (G, counts, thr)) if isinstance(ts.value, ast.Constant) else ('far', 0, None)
+            ck.decide(v, 'C11.D2.threshold', mod, ts, F, u(ts),
+                      'counts strictly below the threshold are removed from the graph only',
+                      'thresholding must zero exactly the entries with counts < threshold in the graph copy')
+            ck.check(dom(ts, cst), 'C11.D2.threshold', mod, ts, F, 'threshold before components',
+                     'thresholding precedes the component search', 'thresholding must happen on every path before connected_components')
+    else:
+        g = fi.expand(graph) if graph is not None else None
+        forms = ['np.where(%s < %s, 0, %s)' % (counts, thr, counts), 'np.where(%s <= %s, %s, 0)' % (thr, counts, counts),
+                 '%s * (%s <= %s)' % (counts, thr, counts), '(%s <= %s) * %s' % (thr, counts, counts), '%s <= %s' % (thr, counts)]
+        if g is not None and classify(g, forms)[0] == 'match':
+            ck.ok('C11.D2.threshold-copy', mod, c, u(graph), 'the graph is a new array')
+            ck.ok('C11.D2.threshold', mod, c, _short(g), 'entries below the threshold are absent from the graph')
+        elif g is not None and _cx(g) in (counts,) + dens + CS('%s.copy()' % counts, 'np.array(%s, copy=True)' % counts):
+            ck.bad('C11.D2.threshold', mod, c, F, u(c), 'the component search runs on the raw counts: entries below the threshold must be removed from the graph')
+        else:
+            ck.missing('C11.D2.threshold', 'construction of the graph %s not recognised' % _short(graph))
+
+    # ---- the renumbering branch
+    br = _branch_assumes(fi, lambda e: isinstance(e, ast.Name) and e.id == renum)
+    if br is None:
         ck.missing('C11.D3.branches', 'renumber_states branch')
-        return EXPLANATION
-    node = ifs[0]
-    rb = ast.Module(body=node.body, type_ignores=[])
-    ib = ast.Module(body=node.orelse, type_ignores=[])
-    st = [s for s in ast.walk(rb) if isinstance(s, ast.Assign) and isinstance(s.targets[0], ast.Subscript)
-          and u(s.targets[0].value) == 'trimmed_counts']
-    ok = len(st) == 1 and u(st[0].value) == '%s[np.ix_(keep_states, keep_states)]' % counts and \
-        u(st[0].targets[0].slice) == 'np.ix_(new_states, new_states)'
-    ck.check(ok, 'C11.D3.submatrix', mod, st[0] if st else node, 'trim_disconnected', u(st[0]) if st else 'submatrix',
-             'same index vector selects rows and columns of the original counts',
-             'the trimmed matrix must be counts[np.ix_(keep_states, keep_states)] (same states on both axes, original counts)')
-    mp = [s for s in ast.walk(rb) if isinstance(s, ast.Assign) and u(s.targets[0]) == 'mapping']
-    ok = len(mp) == 1 and u(mp[0].value).replace(' ', '') in (
-        'TrimMapping(zip(keep_states,range(len(trimmed_counts))))', 'TrimMapping(zip(keep_states,range(len(keep_states))))',
-        'TrimMapping(zip(keep_states,new_states))')
-    ck.check(ok, 'C11.D3.mapping', mod, mp[0] if mp else node, 'trim_disconnected', u(mp[0]) if mp else 'mapping',
-             'mapping pairs are (original id, new contiguous id)',
-             'TrimMapping consumes (original, trimmed) pairs: the renumbering mapping must be zip(keep_states, range(n_kept)) in that order')
-    # in-place branch
-    tr = [s for s in ast.walk(ib) if isinstance(s, ast.Assign) and u(s.targets[0]) == 'trim_states']
-    ok = len(tr) == 1 and u(tr[0].value) in ('np.where(%s != %s)' % (labels, bname), 'np.where(%s != %s)[0]' % (labels, bname))
-    ck.check(ok, 'C11.D3.inplace', mod, tr[0] if tr else node, 'trim_disconnected', u(tr[0]) if tr else 'trim_states',
-             'removed states are the complement of the kept component', 'trim_states must be np.where(labels != best)')
-    zs = [s for s in ast.walk(ib) if isinstance(s, ast.Assign) and isinstance(s.targets[0], ast.Subscript)
-          and u(s.targets[0].value) == 'trimmed_counts' and u(s.value) == '0']
-    def _full(e):
-        return isinstance(e, ast.Slice) and e.lower is None and e.upper is None and e.step is None
-    okrows = okcols = False
-    for z in zs:
-        slc = z.targets[0].slice
-        if isinstance(slc, ast.Tuple) and len(slc.elts) == 2:
-            a, b = slc.elts
-            if u(a) == 'trim_states' and _full(b):
-                okrows = True
-            if _full(a) and u(b) == 'trim_states':
-                okcols = True
-    ck.check(okrows and okcols, 'C11.D3.inplace', mod, zs[0] if zs else node, 'trim_disconnected', '; '.join(u(s) for s in zs),
+        return
+    at, af = br
+
+    def side(stmt):
+        return 'ren' if dom(at, stmt) else 'inp' if dom(af, stmt) else 'both'
+    EXCL = {'ren': af, 'inp': at}
+
+    # ---- D4: returned pair; the matrix variable M by its role
+    rets = returns_of(fn)
+    tms = [x for x in calls_in(fn) if call_name(x) == 'TrimMapping']
+    tm_stmts = {id(fi.stmt(x)) for x in tms}
+    if not rets:
+        ck.missing('C11.D4.return', 'return statement')
+        return
+
+    def origins(e, seen=None):
+        """Definition statements the value of Name/expr e may come from."""
+        seen = set() if seen is None else seen
+        if not isinstance(e, ast.Name):
+            return [e]
+        out = []
+        for d in fi.defs_of_use(e):
+            if d in ('PARAM', 'UNBOUND') or id(d) in seen:
+                out.append(d)
+                continue
+            seen.add(id(d))
+            v = fi.def_value(d, e.id)
+            if isinstance(v, ast.Name):
+                out += origins(v, seen)
+            else:
+                out.append(d)
+        return out
+
+    def is_mapping(e):
+        o = origins(e)
+        return bool(o) and all((isinstance(d, ast.stmt) and id(d) in tm_stmts) or
+                               (isinstance(d, ast.Call) and call_name(d) == 'TrimMapping') for d in o)
+    M = None
+    ret_ok = True
+    for r in rets:
+        val = r.value
+        if isinstance(val, ast.Name):
+            val = fi.resolve(val)
+        if not (isinstance(val, ast.Tuple) and len(val.elts) == 2):
+            ck.missing('C11.D4.return', 'return value is not a pair: %s' % _short(r))
+            ret_ok = False
+            continue
+        a, b = val.elts
+        if is_mapping(a) and not is_mapping(b):
+            ck.ok('C11.D4.return', mod, r, u(r), 'returns (mapping, counts)')
+        elif is_mapping(b) and not is_mapping(a):
+            ck.bad('C11.D4.return', mod, r, F, u(r), 'trim_disconnected must return (mapping, trimmed_counts) in that order')
+            ret_ok = False
+            continue
+        else:
+            ck.missing('C11.D4.return', 'cannot tell mapping from matrix in %s' % _short(r))
+            ret_ok = False
+            continue
+        base = b
+        if isinstance(base, ast.Call) and len(base.args) == 1 and not base.keywords and isinstance(base.func, ast.Name):
+            base = base.args[0]
+        if not isinstance(base, ast.Name) or (M is not None and M != base.id):
+            ck.missing('C11.D4.return', 'returned matrix is not a single variable: %s' % _short(b))
+            ret_ok = False
+            continue
+        M = base.id
+    if not ret_ok or M is None:
+        return
+
+    # ---- D4: container type recorded before densification, restored on every path
+    container_rule(ck, mod, fn, fi, counts, M, rets)
+
+    # ---- definitions of M on the two paths
+    mdefs = [s for s in assigns_to(fn, M) if isinstance(s, ast.Assign) and len(s.targets) == 1 and isinstance(s.targets[0], ast.Name)
+             and not (isinstance(s.value, ast.Call) and isinstance(s.value.func, ast.Name) and len(s.value.args) == 1
+                      and isinstance(s.value.args[0], ast.Name) and s.value.args[0].id == M)]
+    mdef = {}
+    for s in mdefs:
+        mdef.setdefault(side(s), []).append(s)
+    if 'both' in mdef or len(mdef.get('ren', [])) != 1 or len(mdef.get('inp', [])) != 1:
+        ck.missing('C11.D3.branches', 'one construction of the result %s per renumber_states branch' % M)
+        return
+
+    # ---- D3: mapping pairs per path
+    maps = {'ren': [], 'inp': []}
+    for x in tms:
+        sd = side(fi.stmt(x))
+        for b in (('ren', 'inp') if sd == 'both' else (sd,)):
+            maps[b].append(x)
+    scope_all = {counts, labels, nsub, M, G or counts}
+    KX = {}
+    Kexp = {}
+    rng = []
+    for pre, post in (('range(', ')'), ('np.arange(', ')')):
+        rng += [pre + t + post for t in ('len(%s)' % M, '%s.shape[0]' % M, 'len(_K)', '_K.shape[0]', '_K.size')]
+    ren_forms = ['zip(_K, %s)' % r for r in rng] + ['((_O, _T) for _T, _O in enumerate(_K))', '[(_O, _T) for _T, _O in enumerate(_K)]']
+    inp_forms = ['zip(_K, _K)', '((_S, _S) for _S in _K)', '[(_S, _S) for _S in _K]']
+    for b, forms, okmsg, badmsg in (
+            ('ren', ren_forms, 'mapping pairs are (original id, new contiguous id)',
+             'TrimMapping consumes (original, trimmed) pairs: the renumbering mapping must be zip(keep_states, range(n_kept)) in that order'),
+            ('inp', inp_forms, 'identity mapping on the kept states',
+             'without renumbering the mapping must be the identity on keep_states')):
+        if len(maps[b]) != 1 or len(maps[b][0].args) != 1 or maps[b][0].keywords:
+            ck.missing('C11.D3.mapping', 'one TrimMapping(<pairs>) construction on the %s path (found %d)' % (
+                'renumbering' if b == 'ren' else 'in-place', len(maps[b])))
+            continue
+        x = maps[b][0]
+        arg = _strip_calls(_xb(fi, x.args[0], EXCL[b]), ('list', 'tuple'))
+        v = classify(arg, forms, scope=scope_all)
+        ck.decide(v, 'C11.D3.mapping', mod, x, F, '%s  [%s]' % (u(fi.stmt(x)), 'renumber' if b == 'ren' else 'in place'), okmsg, badmsg)
+        if v[0] == 'match':
+            Kexp[b] = v[1]['_K']
+            KX[b] = _cx(v[1]['_K'])
+    if not KX:
+        return
+    if len(set(KX.values())) != 1:
+        ck.bad('C11.D3.mapping', mod, maps['inp'][0], F, 'kept states of the two variants',
+               'the renumbering and the in-place variant describe different state sets: %s vs %s' % (_short(KX['ren'], 80), _short(KX['inp'], 80)))
+        return
+    kx = next(iter(KX.values()))
+    K = next(iter(Kexp.values()))
+
+    # ---- D3.keep / D2.heaviest / D2.weights: peel the expanded keep set
+    knode = maps['ren'][0] if maps['ren'] else maps['inp'][0]
+    bx = keep_chain(ck, mod, fn, fi, K, counts, labels, nsub, G, okd, redefs, knode)
+
+    # ---- D3.submatrix (renumbering path)
+    submatrix_rule(ck, mod, fn, fi, M, mdef['ren'][0], counts, kx, at, af, scope_all)
+
+    # ---- D3.inplace
+    inplace_rule(ck, mod, fn, fi, M, mdef['inp'][0], counts, labels, bx, kx, at, af, scope_all)
+
+
+def keep_chain(ck, mod, fn, fi, K, counts, labels, nsub, G, okd, redefs, node):
+    """K (expanded) = where(labels == B)[0]; B = W.argmax(); W = per-component
+    sums of P; P = row sums of the original counts.  Returns the canonical
+    text of B (None if not established)."""
+    scope = {counts, labels, nsub} | ({G} if G else set())
+    L = labels
+    v = classify(K, ['np.where(%s == _B)[0]' % L, 'np.where(_B == %s)[0]' % L, 'np.nonzero(%s == _B)[0]' % L,
+                     'np.nonzero(_B == %s)[0]' % L, 'np.arange(len(%s))[%s == _B]' % (L, L),
+                     'np.arange(%s.shape[0])[%s == _B]' % (L, L)], scope=scope)
+    ck.decide(v, 'C11.D3.keep', mod, K, F, 'keep set: %s' % _short(K, 120),
+              'kept states in ascending original order', 'keep_states must be np.where(labels == best)[0]')
+    if v[0] != 'match':
+        return None
+    B = v[1]['_B']
+    bx = _cx(B)
+    Bs = _strip_calls(B, ('int',))
+    v = classify(Bs, ['_W.argmax()', '_W.argmax(axis=0)'], scope=scope)
+    ck.decide(v, 'C11.D2.heaviest', mod, Bs, F, 'selected component: %s' % _short(Bs, 120),
+              'heaviest component selected by argmax',
+              'the kept component must be np.argmax(subgraph_pops) (heaviest, not largest/first)')
+    if v[0] != 'match':
+        return bx
+    W = _strip_calls(v[1]['_W'], ('np.asarray', 'np.array', 'np.asanyarray', 'list'))
+    wforms = []
+    for n in ('range(%s)' % nsub, 'range(%s.max() + 1)' % L, 'np.arange(%s)' % nsub, 'np.unique(%s)' % L):
+        for sel in ('%s == _I' % L, '_I == %s' % L, 'np.where(%s == _I)' % L, 'np.where(%s == _I)[0]' % L):
+            wforms += ['[_P[%s].sum() for _I in %s]' % (sel, n), '[sum(_P[%s]) for _I in %s]' % (sel, n)]
+    v = classify(W, wforms, scope=scope)
+    ck.decide(v, 'C11.D2.weights', mod, W, F, 'component weights: %s' % _short(W, 120),
+              'component weight = sum of member weights, one entry per component',
+              'per-component weight must sum pops over labels == i for i in range(n_subgraphs)')
+    if v[0] != 'match':
+        return bx
+    P = v[1]['_P']
+    v = classify(P, ['%s.sum(axis=1)' % counts, '%s.sum(1)' % counts, '%s.sum(axis=-1)' % counts, '%s.sum(-1)' % counts], scope=scope)
+    ck.decide(v, 'C11.D2.weights', mod, P, F, 'state weights: %s' % _short(P, 120),
+              'state weight = row sum of the ORIGINAL counts',
+              'component weight must come from %s.sum(axis=1) of the original counts: the thresholded copy '
+              'loses sub-threshold counts and axis=0 (column sums) ranks components by arrivals, which '
+              'differs when one-way links exist' % counts)
+    ck.check(okd, 'C11.D2.weights', mod, redefs[0] if redefs else fn, F, 'definitions of %s: %s' % (counts, '; '.join(u(s) for s in redefs) or 'parameter'),
+             'weights and extraction see the caller\'s counts (only densified)',
+             '%s is redefined by something other than its densification before the weights are taken' % counts)
+    return bx
+
+
+def container_rule(ck, mod, fn, fi, counts, M, rets):
+    rule = 'C11.D4.container'
+    tdefs = [s for s in walk_local(fn) if isinstance(s, ast.Assign) and len(s.targets) == 1 and isinstance(s.targets[0], ast.Name)
+             and match('type(%s)' % counts, s.value) is not None]
+    tdefs = [s for s in tdefs if all(fi.defs_of_use(x) == {'PARAM'} for x in ast.walk(s.value) if isinstance(x, ast.Name) and x.id == counts)]
+    if len(tdefs) != 1 or len(assigns_to(fn, tdefs[0].targets[0].id)) != 1:
+        late = [s for s in walk_local(fn) if isinstance(s, ast.Assign) and match('type(%s)' % counts, s.value) is not None]
+        if late and not tdefs:
+            ck.bad(rule, mod, late[0], F, u(late[0]), 'the container type must be taken from the argument BEFORE it is densified')
+        else:
+            ck.missing(rule, '`<out_type> = type(%s)` taken from the argument' % counts)
+        return
+    OT = tdefs[0].targets[0].id
+
+    def is_conv(e):
+        return isinstance(e, ast.Call) and isinstance(e.func, ast.Name) and e.func.id == OT and len(e.args) == 1 and \
+            not e.keywords and isinstance(e.args[0], ast.Name) and e.args[0].id == M
+    convs = [s for s in assigns_to(fn, M) if isinstance(s, ast.Assign) and is_conv(s.value)]
+    same = CS('type(%s) is %s' % (M, OT), '%s is type(%s)' % (OT, M), 'isinstance(%s, %s)' % (M, OT), 'type(%s) == %s' % (M, OT))
+    differ = CS('type(%s) is not %s' % (M, OT), '%s is not type(%s)' % (OT, M), 'type(%s) != %s' % (M, OT))
+    guards, wrong = [], []
+    for n in fi.cfg.nodes:
+        if not isinstance(n, Assume):
+            continue
+        t, pol = n.test, n.polarity
+        while isinstance(t, ast.UnaryOp) and isinstance(t.op, ast.Not):
+            t, pol = t.operand, not pol
+        tx = _cx(t)
+        if (tx in same and pol) or (tx in differ and not pol):
+            guards.append(n)
+        elif tx in same or tx in differ:
+            wrong.append(n)
+    any_conv = any(isinstance(x, ast.Call) and isinstance(x.func, ast.Name) and x.func.id == OT for x in walk_local(fn))
+    allok = True
+    for r in rets:
+        val = fi.resolve(r.value) if isinstance(r.value, ast.Name) else r.value
+        b = val.elts[1]
+        if is_conv(b):
+            continue
+        if not isinstance(b, ast.Name):
+            allok = None
+            continue
+        for d in fi.defs_of_use(b):
+            if d in ('PARAM', 'UNBOUND'):
+                allok = None
+                continue
+            if d in convs:
+                continue
+            others = [x for x in fi.defs_of_use(b) if x is not d and x not in ('PARAM', 'UNBOUND')]
+            if fi.cfg.reachable(d, r, avoiding=guards + others):
+                # an unconverted, unchecked matrix reaches this return
+                allok = False if allok is not None else None
+    if allok:
+        ck.ok(rule, mod, tdefs[0], '%s ; %s' % (u(tdefs[0]), '; '.join(u(s) for s in convs) or 'converted in the return value'),
+              'input container type recorded before densifying and restored on the result')
+    elif allok is False and (not any_conv or wrong or not guards):
+        ck.bad(rule, mod, tdefs[0], F, '%s ; %s' % (u(tdefs[0]), '; '.join(u(s) for s in convs) or '?'),
+               'the container type must be taken from the argument before densification and restored on the result: '
+               'a matrix that is neither converted by %s(...) nor known to have that type reaches a return' % OT)
+    else:
+        ck.missing(rule, 'restoration of the container type %s on the returned matrix not recognised' % OT)
+
+
+def submatrix_rule(ck, mod, fn, fi, M, mdef, counts, kx, at, af, scope):
+    rule = 'C11.D3.submatrix'
+    dom = fi.cfg.dominates
+    bad = 'the trimmed matrix must be counts[np.ix_(keep_states, keep_states)] (same states on both axes, original counts)'
+    ext_forms = ['%s[np.ix_(_A, _B)]' % counts, '%s[_A][:, _B]' % counts, '%s[_A, :][:, _B]' % counts, '%s[:, _B][_A]' % counts,
+                 '%s[:, _B][_A, :]' % counts]
+
+    def extraction(e, node, what):
+        v = classify(e, ext_forms, scope=scope)
+        if v[0] == 'match':
+            a, b = _cx(v[1]['_A']), _cx(v[1]['_B'])
+            ck.check(a == kx and b == kx, rule, mod, node, F, what,
+                     'same index vector selects rows and columns of the original counts',
+                     bad + ': rows are selected by %s, columns by %s' % (_short(a, 60), _short(b, 60)))
+        else:
+            ck.decide(v, rule, mod, node, F, what, '', bad)
+    val = _xb(fi, mdef.value, af)
+    # the extraction itself defines the result
+    if classify(_strip_calls(val, ('np.array', 'np.asarray')), ext_forms)[0] == 'match':
+        extraction(_strip_calls(val, ('np.array', 'np.asarray')), mdef, u(mdef))
+        return
+    # zero matrix of the size of the keep set, filled by one store
+    n_forms = ['len(%s)' % kx, '(%s).shape[0]' % kx, '(%s).size' % kx]
+    zf = []
+    for n in n_forms:
+        zf += ['np.zeros((%s, %s), dtype=__)' % (n, n), 'np.zeros((%s, %s))' % (n, n), 'np.zeros(shape=(%s, %s), dtype=__)' % (n, n),
+               'np.zeros(shape=(%s, %s))' % (n, n), 'np.zeros([%s, %s], dtype=__)' % (n, n)]
+    v = classify(val, zf, scope=scope)
+    ck.decide(v, rule, mod, mdef, F, u(mdef), 'result has one row and one column per kept state',
+              'the renumbered matrix must be allocated as zeros of shape (n_kept, n_kept)')
+    st = [(s, t) for s, t in subscript_stores(fn, M) if not dom(af, s) and isinstance(s, ast.Assign)]
+    if len(st) != 1:
+        ck.missing(rule, 'exactly one store into %s on the renumbering path (found %d)' % (M, len(st)))
+        return
+    s, t = st[0]
+    extraction(_xb(fi, s.value, af), s, u(s))
+    sl = _xb(fi, t.slice, af)
+    whole = _is_full_slice(sl) or (isinstance(sl, ast.Constant) and sl.value is Ellipsis) or \
+        (isinstance(sl, ast.Tuple) and len(sl.elts) == 2 and all(_is_full_slice(e) for e in sl.elts))
+    if whole:
+        ck.ok(rule, mod, s, u(t), 'the whole result is written')
+        return
+    ar = []
+    for n in n_forms + ['len(%s)' % M, '%s.shape[0]' % M]:
+        ar += ['np.arange(%s)' % n, 'range(%s)' % n, 'np.arange(0, %s)' % n]
+    v = classify(sl, ['np.ix_(%s, %s)' % (a, a) for a in ar], scope=scope)
+    ck.decide(v, rule, mod, s, F, 'target %s' % u(t), 'the block is written to positions 0..n_kept-1 on both axes',
+              'the extracted block must be written to np.ix_(arange(n_kept), arange(n_kept))')
+
+
+def inplace_rule(ck, mod, fn, fi, M, mdef, counts, labels, bx, kx, at, af, scope):
+    rule = 'C11.D3.inplace'
+    dom = fi.cfg.dominates
+    v = classify(_xb(fi, mdef.value, at), ['np.array(%s, copy=True)' % counts, '%s.copy()' % counts], scope={counts})
+    ck.decide(v, rule, mod, mdef, F, u(mdef), 'the zeroing happens in a copy', 'the non-renumbering variant must work on a copy of the counts')
+    zs = [(s, t) for s, t in subscript_stores(fn, M) if not dom(at, s) and isinstance(s, ast.Assign)]
+    if not zs:
+        ck.missing(rule, 'stores into %s on the in-place path' % M)
+        return
+    rows, cols, other = [], [], []
+    for s, t in zs:
+        if const_value(s.value) != 0 or isinstance(s.value, ast.Constant) and s.value.value is False:
+            other.append((s, None))
+            continue
+        sl = t.slice
+        if isinstance(sl, ast.Tuple) and len(sl.elts) == 2 and _is_full_slice(sl.elts[1]) and not _is_full_slice(sl.elts[0]):
+            rows.append((s, sl.elts[0]))
+        elif isinstance(sl, ast.Tuple) and len(sl.elts) == 2 and _is_full_slice(sl.elts[0]) and not _is_full_slice(sl.elts[1]):
+            cols.append((s, sl.elts[1]))
+        elif not isinstance(sl, (ast.Tuple, ast.Slice)) and not _is_ix(_xb(fi, sl, at)):
+            rows.append((s, sl))        # M[T] = 0 zeroes whole rows
+        else:
+            other.append((s, sl))
+    what = '; '.join(u(s) for s, _ in zs)
+    if not rows and not cols and not [o for o in other if o[1] is not None]:
+        ck.missing(rule, 'zeroing stores into %s on the in-place path not recognised: %s' % (M, _short(what)))
+        return
+    ck.check(bool(rows) and bool(cols), rule, mod, zs[0][0], F, what,
              'rows AND columns of every removed state are zeroed',
              'the in-place variant must zero trimmed_counts[trim_states, :] and trimmed_counts[:, trim_states]: '
              'zeroing only the removed x removed block leaves one-way counts between kept and removed states')
-    cp = [s for s in ast.walk(ib) if isinstance(s, ast.Assign) and u(s.targets[0]) == 'trimmed_counts']
-    ok = len(cp) == 1 and u(cp[0].value) in ('np.array(%s, copy=True)' % counts, '%s.copy()' % counts, 'np.copy(%s)' % counts)
-    ck.check(ok, 'C11.D3.inplace', mod, cp[0] if cp else node, 'trim_disconnected', u(cp[0]) if cp else 'copy',
-             'the zeroing happens in a copy', 'the non-renumbering variant must work on a copy of the counts')
-    mp2 = [s for s in ast.walk(ib) if isinstance(s, ast.Assign) and u(s.targets[0]) == 'mapping']
-    ok = len(mp2) == 1 and u(mp2[0].value) == 'TrimMapping(zip(keep_states, keep_states))'
-    ck.check(ok, 'C11.D3.mapping', mod, mp2[0] if mp2 else node, 'trim_disconnected', u(mp2[0]) if mp2 else 'mapping',
-             'identity mapping on the kept states', 'without renumbering the mapping must be the identity on keep_states')
-    # container restore + return order
-    r = returns_of(fn)
-    ok = len(r) == 1 and u(r[0].value) == '(mapping, trimmed_counts)'
-    ck.check(ok, 'C11.D4.return', mod, r[0] if r else fn, 'trim_disconnected', u(r[0]) if r else 'return',
-             'returns (mapping, counts)', 'trim_disconnected must return (mapping, trimmed_counts)')
-    ot = [s for s in assigns_to(fn, 'out_type') if isinstance(s, ast.Assign)]
-    ok = len(ot) == 1 and u(ot[0].value) == 'type(%s)' % counts and fn.body.index(ot[0]) < min(
-        [fn.body.index(s) for s in fn.body if isinstance(s, ast.If)] or [99])
-    rs = [s for s in walk_local(fn) if isinstance(s, ast.Assign) and u(s.value) == 'out_type(trimmed_counts)']
-    ck.check(ok and len(rs) == 1, 'C11.D4.container', mod, ot[0] if ot else fn, 'trim_disconnected',
-             '%s ; %s' % (u(ot[0]) if ot else '?', u(rs[0]) if rs else '?'),
-             'input container type recorded before densifying and restored on the result',
-             'the container type must be taken from the argument before densification and restored on the result')
-    # unpacking sites
+    if other and rows and cols:
+        ck.missing(rule, 'additional store into %s on the in-place path: %s' % (M, _short(u(other[0][0]))))
+    L = labels
+    tforms = []
+    for cmp_ in ('%s != _B' % L, '_B != %s' % L, '~(%s == _B)' % L, 'np.logical_not(%s == _B)' % L):
+        tforms += ['np.where(%s)' % cmp_, 'np.where(%s)[0]' % cmp_, 'np.nonzero(%s)' % cmp_, 'np.nonzero(%s)[0]' % cmp_, cmp_]
+    tforms += ['np.setdiff1d(np.arange(len(%s)), %s)' % (L, kx), 'np.setdiff1d(np.arange(%s.shape[0]), %s)' % (L, kx)]
+    for s, e in rows + cols:
+        T = _xb(fi, e, at)
+        v = classify(T, tforms, scope=scope)
+        if v[0] == 'match' and '_B' in v[1] and bx is not None and _cx(v[1]['_B']) != bx:
+            v = ('near', 1, 'np.where(%s != <kept component>)' % L)
+        elif v[0] == 'match' and '_B' in v[1] and bx is None:
+            v = ('far', 0, None)
+        ck.decide(v, rule, mod, s, F, '%s  with index %s' % (u(s), _short(T, 100)),
+                  'removed states are the complement of the kept component',
+                  'the zeroed states must be np.where(labels != best), the complement of the kept component')
+
+
+def unpack_rules(ck):
+    """Call sites unpack (mapping, counts) in that order."""
     n = 0
     for rel in (MS, TS):
         m2 = ck.repo.mod(rel)
         for q, f in m2.functions.items():
             for s in walk_local(f):
-                if isinstance(s, ast.Assign) and isinstance(s.value, ast.Call) and \
-                        call_name(s.value) == 'trim_disconnected' and isinstance(s.targets[0], ast.Tuple):
-                    a, b = [u(e) for e in s.targets[0].elts]
-                    n += 1
-                    ck.check('mapping' in a and ('count' in b.lower() or b == 'C'), 'C11.D4.unpack', m2, s, q, u(s),
-                             '(mapping, counts) unpacked in order', 'trim_disconnected returns (mapping, counts); unpacked as (%s, %s)' % (a, b))
+                if not (isinstance(s, ast.Assign) and isinstance(s.value, ast.Call) and
+                        (call_name(s.value) or '').split('.')[-1] == F and isinstance(s.targets[0], ast.Tuple)
+                        and len(s.targets[0].elts) == 2):
+                    continue
+                n += 1
+                a, b = s.targets[0].elts
+                arg = s.value.args[0] if s.value.args else kwarg(s.value, 'counts')
+                an = u(arg) if arg is not None else None
+                fi = finfo(m2, f)
+                # role of each target: the counts replace the argument / go to the builder; the mapping is stored as mapping_
+                def used_as_matrix(t):
+                    if not isinstance(t, ast.Name):
+                        return False
+                    for x in walk_local(f):
+                        if isinstance(x, ast.Call) and x is not s.value and x.args and isinstance(x.args[0], ast.Name) \
+                                and x.args[0].id == t.id and s in fi.defs_of_use(x.args[0]) \
+                                and (call_name(x) or '').split('.')[-1] in ('method', 'eigenspectrum', 'eq_probs'):
+                            return True
+                    return False
+                a_map = u(a).endswith('mapping_') or u(a).lstrip('_') == 'mapping'
+                if u(b) == an or used_as_matrix(b):
+                    ok = True
+                elif u(a) == an or used_as_matrix(a) or u(b).endswith('mapping_'):
+                    ok = False
+                elif a_map:
+                    ok = True
+                else:
+                    ck.missing('C11.D4.unpack', 'roles of the unpacked names in %s' % _short(u(s)))
+                    continue
+                ck.check(ok, 'C11.D4.unpack', m2, s, q, u(s), '(mapping, counts) unpacked in order',
+                         'trim_disconnected returns (mapping, counts); unpacked as (%s, %s)' % (u(a), u(b)))
     ck.floor('C11.D4.unpack', n, 2, 'unpackings of trim_disconnected')
-    mapping_rules(ck)
-    # MSM.fit stores the mapping and trimmed counts
+
+
+def fit_rules(ck):
+    """MSM.fit stores the mapping and trimmed counts iff self.trim; identity otherwise."""
+    rule = 'C11.D4.fit'
     mm = ck.repo.mod(MS)
     fit = mm.func('MSM.fit')
     ck.analysed(mm, fit)
-    ok = any(isinstance(s, ast.Assign) and u(s.targets[0]) == '(self.mapping_, tcounts)' and
-             u(s.value) == 'trim_disconnected(tcounts)' for s in walk_local(fit))
-    ck.check(ok, 'C11.D4.fit', mm, fit, 'MSM.fit', 'self.mapping_, tcounts = trim_disconnected(tcounts)',
+    fi = finfo(mm, fit)
+    Q = 'MSM.fit'
+    tr = [s for s in walk_local(fit) if isinstance(s, ast.Assign) and isinstance(s.value, ast.Call)
+          and (call_name(s.value) or '').split('.')[-1] == F]
+    if len(tr) != 1:
+        ck.missing(rule, 'one `... = trim_disconnected(...)` in MSM.fit (found %d)' % len(tr))
+        return
+    t = tr[0]
+    call = t.value
+    arg = call.args[0] if call.args else kwarg(call, 'counts')
+    tg = t.targets[0]
+    extra = [k.arg for k in call.keywords if k.arg != 'counts'] + [1] * max(0, len(call.args) - 1)
+    ok = isinstance(tg, ast.Tuple) and len(tg.elts) == 2 and u(tg.elts[0]) == 'self.mapping_' and isinstance(arg, ast.Name) \
+        and isinstance(tg.elts[1], ast.Name) and tg.elts[1].id == arg.id and not extra
+    ck.check(ok, rule, mm, t, Q, u(t),
              'the fitted model reports the trimming mapping and uses the trimmed counts',
-             'MSM.fit must store the mapping returned by trim_disconnected and continue with the trimmed counts')
-    idm = [s for s in walk_local(fit) if isinstance(s, ast.Assign) and u(s.targets[0]) == 'self.mapping_' and 'TrimMapping' in u(s.value)]
-    ok = len(idm) == 1 and u(idm[0].value).replace(' ', '') == 'TrimMapping(zip(range(tcounts.shape[0]),range(tcounts.shape[0])))'
-    ck.check(ok, 'C11.D4.fit', mm, idm[0] if idm else fit, 'MSM.fit', u(idm[0]) if idm else 'identity mapping',
-             'identity mapping when trimming is off', 'without trimming the mapping must be the identity over all states')
-    from .C16 import d2_pipeline
-    d2_pipeline(ck, mm)
-    check_no_arg_mutation(ck, 'C11.D5.inputs-unmodified', [(TM, 'trim_disconnected')])
-    return EXPLANATION
+             'MSM.fit must store the mapping returned by trim_disconnected (default threshold, renumbering) '
+             'and continue with the trimmed counts')
+    X = arg.id if isinstance(arg, ast.Name) else None
+    # trimming happens exactly when self.trim
+    atoms = _guard_atoms(fi, t)
+    if atoms is None:
+        ck.missing(rule, 'condition under which MSM.fit trims')
+    else:
+        atoms = sorted(set(atoms))
+        ck.check(atoms == [('self.trim', True)], rule, mm, t, Q, 'trimming condition: %s' % (
+            ' and '.join(('' if p else 'not ') + a for a, p in atoms) or 'unconditional'),
+            'the counts are trimmed iff self.trim',
+            'MSM(trim=True).fit must ALWAYS trim with trim_disconnected (and never when trim=False): any shortcut '
+            'condition makes mapping_/tcounts_ differ from the trimming result, e.g. states that are entered and '
+            'left but not strongly connected')
+    # identity mapping otherwise
+    idm = [s for s in walk_local(fit) if isinstance(s, ast.Assign) and len(s.targets) == 1 and u(s.targets[0]) == 'self.mapping_'
+           and isinstance(s.value, ast.Call) and call_name(s.value) == 'TrimMapping']
+    if len(idm) != 1 or len(idm[0].value.args) != 1:
+        ck.missing(rule, 'identity mapping `self.mapping_ = TrimMapping(...)` for trim=False (found %d)' % len(idm))
+        return
+    s = idm[0]
+    e = _strip_calls(fi.expand(s.value.args[0]), ('list', 'tuple'))
+    forms = []
+    for r in ('range(_N)', 'np.arange(_N)'):
+        forms += ['zip(%s, %s)' % (r, r), '((_I, _I) for _I in %s)' % r, '[(_I, _I) for _I in %s]' % r]
+    v = classify(e, forms, scope={X} if X else None)
+    if v[0] == 'match' and X:
+        v2 = classify(v[1]['_N'], ['%s.shape[0]' % X, '%s.shape[1]' % X], scope={X})
+        v = v2 if v2[0] != 'match' else v
+    ck.decide(v, rule, mm, s, Q, u(s), 'identity mapping when trimming is off',
+              'without trimming the mapping must be the identity over all states (zip(range(n), range(n)) with n = %s.shape[0])' % (X or 'tcounts'))
+    ga = _guard_atoms(fi, s)
+    if ga is None:
+        ck.missing(rule, 'condition under which the identity mapping is stored')
+    else:
+        ga = sorted(set(ga))
+        what = 'identity mapping condition: %s' % (' and '.join(('' if p else 'not ') + a for a, p in ga) or 'unconditional')
+        bad = 'the identity mapping must be the final mapping exactly when self.trim is false'
+        if ga == [('self.trim', False)]:
+            ck.ok(rule, mm, s, what, 'identity mapping exactly when trim is off')
+        elif not ga and fi.cfg.reachable(s, t) and not fi.cfg.reachable(t, s):
+            ck.ok(rule, mm, s, what, 'identity mapping is the default, replaced by the trimming mapping when trim is on')
+        elif not ga and fi.cfg.reachable(t, s):
+            ck.bad(rule, mm, s, Q, what, bad + ': it overwrites the mapping returned by trim_disconnected')
+        elif ('self.trim', True) in ga:
+            ck.bad(rule, mm, s, Q, what, bad)
+        else:
+            ck.missing(rule, 'condition under which the identity mapping is stored: %s' % what)
 
 
 def mapping_rules(ck):
@@ -199,41 +785,85 @@ def mapping_rules(ck):
     mod = ck.repo.mod(TM)
     init = mod.func('TrimMapping.__init__')
     ck.analysed(mod, init)
+    tp = params(init)[1] if len(params(init)) > 1 else None
     st = [s for s in walk_local(init) if isinstance(s, ast.Assign) and u(s.targets[0]) == 'self.to_original']
-    ok = len(st) == 1 and isinstance(st[0].value, ast.DictComp)
-    if ok:
-        dc = st[0].value
-        tgt = dc.generators[0].target
-        ok = isinstance(tgt, ast.Tuple) and len(tgt.elts) == 2 and u(dc.key) == u(tgt.elts[1]) and u(dc.value) == u(tgt.elts[0])
-    ck.check(ok, rule, mod, st[0] if st else init, 'TrimMapping.__init__', u(st[0]) if st else 'to_original',
-             'to_original[trimmed] = original for (original, trimmed) pairs',
-             'TrimMapping(transformations) takes (original, trimmed) pairs and must store to_original = {trimmed: original}')
-    tm = mod.func('TrimMapping.to_mapped')
-    # first definition is the getter? functions dict keeps the last (setter). check class body directly
+    if len(st) != 1:
+        ck.missing(rule, 'single store of self.to_original in TrimMapping.__init__ (found %d)' % len(st))
+    else:
+        inv, it = _inverting(st[0].value)
+        if inv is None or u(it) != tp:
+            ck.missing(rule, 'construction of to_original from the pairs not recognised: %s' % _short(st[0]))
+        else:
+            ck.check(inv, rule, mod, st[0], 'TrimMapping.__init__', u(st[0]),
+                     'to_original[trimmed] = original for (original, trimmed) pairs',
+                     'TrimMapping(transformations) takes (original, trimmed) pairs and must store to_original = {trimmed: original}')
     cls = mod.classes['TrimMapping']
     getters = [f for f in cls.body if isinstance(f, ast.FunctionDef) and f.name == 'to_mapped'
                and any(u(d) == 'property' for d in f.decorator_list)]
-    ok = len(getters) == 1 and any(isinstance(r, ast.Return) and u(r.value) == '{v: k for k, v in self.to_original.items()}'
-                                   for r in ast.walk(getters[0]))
-    ck.check(ok, rule, mod, getters[0] if getters else cls, 'TrimMapping.to_mapped', 'to_mapped = inverse of to_original',
-             'to_mapped is derived as the inverse of to_original', 'to_mapped must be {original: trimmed} = inverse of to_original')
+    if len(getters) != 1:
+        ck.missing(rule, 'property TrimMapping.to_mapped')
+    else:
+        g = getters[0]
+        gfi = finfo(mod, g)
+        rs = [r for r in ast.walk(g) if isinstance(r, ast.Return)]
+        verdicts = []
+        for r in rs:
+            e = gfi.expand(r.value) if r.value is not None else None
+            inv, it = _inverting(e) if e is not None else (None, None)
+            if inv is not None and it is not None and _cx(it) == 'self.to_original.items()':
+                verdicts.append(inv)
+            elif e is not None and _cx(e) == C('dict(zip(self.to_original.values(), self.to_original.keys()))'):
+                verdicts.append(True)
+            else:
+                verdicts.append(None)
+        if not rs or any(x is None for x in verdicts):
+            ck.missing(rule, 'value of TrimMapping.to_mapped not recognised')
+        else:
+            ck.check(all(verdicts), rule, mod, g, 'TrimMapping.to_mapped', 'to_mapped = inverse of to_original',
+                     'to_mapped is derived as the inverse of to_original', 'to_mapped must be {original: trimmed} = inverse of to_original')
     wr = mod.func('TrimMapping.write')
     ck.analysed(mod, wr)
+    wfi = finfo(mod, wr)
     hdr = [c for c in calls_in(wr) if isinstance(c.func, ast.Attribute) and c.func.attr == 'writerow']
     rows = [c for c in calls_in(wr) if isinstance(c.func, ast.Attribute) and c.func.attr == 'writerows']
-    okh = len(hdr) == 1 and u(hdr[0].args[0]) == "['original', 'mapped']"
-    okr = len(rows) == 1 and 'self.to_mapped.items()' in u(rows[0].args[0])
-    ck.check(okh and okr, rule + '.write', mod, rows[0] if rows else wr, 'TrimMapping.write',
-             '%s ; %s' % (u(hdr[0]) if hdr else '?', u(rows[0])[:100] if rows else '?'),
-             "rows are (original, mapped) pairs under the header ['original', 'mapped']",
-             "the CSV header is ['original', 'mapped']; rows must therefore be the items of to_mapped "
-             '(original -> mapped). Writing to_original.items() stores the columns swapped and a reload '
-             'returns the inverse mapping')
+    if len(hdr) != 1 or len(rows) != 1 or not hdr[0].args or not rows[0].args:
+        ck.missing(rule + '.write', 'one header writerow and one writerows in TrimMapping.write')
+    else:
+        h = wfi.expand(hdr[0].args[0])
+        hv = [const_value(e) for e in h.elts] if isinstance(h, (ast.List, ast.Tuple)) else None
+        body = wfi.expand(rows[0].args[0])
+        while isinstance(body, ast.Call) and call_name(body) in ('sorted', 'list', 'tuple') and body.args:
+            body = body.args[0]
+        bt = _cx(body)
+        what = '%s ; %s' % (u(hdr[0]), _short(u(rows[0]), 100))
+        bad = ("the CSV header is ['original', 'mapped']; rows must therefore be the items of to_mapped "
+               '(original -> mapped). Writing to_original.items() stores the columns swapped and a reload '
+               'returns the inverse mapping')
+        if hv == ['original', 'mapped'] and bt == 'self.to_mapped.items()':
+            ck.ok(rule + '.write', mod, rows[0], what, "rows are (original, mapped) pairs under the header ['original', 'mapped']")
+        elif hv == ['mapped', 'original'] and bt == 'self.to_original.items()':
+            ck.ok(rule + '.write', mod, rows[0], what, 'rows are (mapped, original) pairs under the matching header')
+        elif hv is not None and sorted(map(str, hv)) == ['mapped', 'original'] and bt in ('self.to_mapped.items()', 'self.to_original.items()'):
+            ck.bad(rule + '.write', mod, rows[0], 'TrimMapping.write', what, bad)
+        else:
+            ck.missing(rule + '.write', 'header/rows of TrimMapping.write not recognised: %s' % what)
     rd = mod.func('TrimMapping.read')
     ck.analysed(mod, rd)
-    asr = [s for s in walk_local(rd) if isinstance(s, ast.Assert) and "['original', 'mapped']" in u(s.test)]
+    rfi = finfo(mod, rd)
+
+    def is_header(e):
+        return isinstance(e, (ast.List, ast.Tuple)) and [const_value(x) for x in e.elts] == ['original', 'mapped']
+    chk = [n for n in ast.walk(rd) if isinstance(n, ast.Compare) and len(n.ops) == 1 and isinstance(n.ops[0], (ast.Eq, ast.NotEq))
+           and (is_header(n.left) or is_header(n.comparators[0]))]
     r = returns_of(rd)
-    ok = bool(asr) and len(r) == 1 and u(r[0].value) == "TrimMapping(zip(column['original'], column['mapped']))"
-    ck.check(ok, rule + '.read', mod, r[0] if r else rd, 'TrimMapping.read', u(r[0]) if r else 'read',
-             "reader rebuilds (original, mapped) pairs from the named columns",
-             "read must check the header and build TrimMapping(zip(column['original'], column['mapped']))")
+    if len(r) != 1 or r[0].value is None:
+        ck.missing(rule + '.read', 'single return of TrimMapping.read')
+    else:
+        e = rfi.expand(r[0].value)
+        v = classify(e, ["TrimMapping(zip(_C['original'], _C['mapped']))", "cls(zip(_C['original'], _C['mapped']))",
+                         "TrimMapping(list(zip(_C['original'], _C['mapped'])))", "cls(list(zip(_C['original'], _C['mapped'])))"], near=2)
+        if v[0] == 'match' and not chk:
+            v = ('near', 1, "assert headers == ['original', 'mapped']")
+        ck.decide(v, rule + '.read', mod, r[0], 'TrimMapping.read', u(r[0]),
+                  'reader rebuilds (original, mapped) pairs from the named columns',
+                  "read must check the header and build TrimMapping(zip(column['original'], column['mapped']))")
